@@ -108,6 +108,8 @@ def build(cspecs, ccons, discrete_factors, level_index):
             cons.append(sp.ContinuousConstraint(fs, (lambda a, thr=thr: a < thr)))
         elif cc["op"] == "gt":
             cons.append(sp.ContinuousConstraint(fs, (lambda a, thr=thr: a > thr)))
+        elif cc["op"] == "gtpair":
+            cons.append(sp.ContinuousConstraint(fs, (lambda a, b, thr=thr: a > b - thr)))       # NOT symmetric in its arguments
         else:
             cons.append(sp.ContinuousConstraint(fs, (lambda a, b, thr=thr: a + b < thr)))
     return out, cons
@@ -118,6 +120,8 @@ def holds(cc, vals):
         return vals[0] < cc["thr"]
     if cc["op"] == "gt":
         return vals[0] > cc["thr"]
+    if cc["op"] == "gtpair":
+        return vals[0] > vals[1] - cc["thr"]
     return vals[0] + vals[1] < cc["thr"]
 
 
@@ -178,7 +182,7 @@ def continuous_specs(draw, discrete_names, max_n=3):
     for i in range(n):
         name = "c%d" % i
         prev = [s["name"] for s in specs]
-        kinds = ["uniform", "gauss", "exp", "lognorm", "free"] + (["derived"] * 4 if (prev or discrete_names) else [])
+        kinds = ["uniform", "uniform", "uniform", "gauss", "exp", "lognorm", "free"] + (["derived"] * 4 if (prev or discrete_names) else [])
         k = draw(st.sampled_from(kinds))
         cs = {"name": name, "kind": k, "params": [], "deps": [], "fn": "sum", "cumulative": False}
         if k == "uniform":
@@ -219,4 +223,9 @@ def continuous_specs(draw, discrete_names, max_n=3):
     us = [s for s in specs if s["kind"] == "uniform"]
     if len(us) >= 2 and draw(st.integers(0, 2)) == 0:
         cons.append({"factors": [us[0]["name"], us[1]["name"]], "op": "sumlt", "thr": us[0]["params"][1] + us[1]["params"][1] - 0.05})
+    if len(us) >= 2 and draw(st.integers(0, 1)) == 0:
+        a, b = (us[0], us[1]) if draw(st.booleans()) else (us[1], us[0])       # either order relative to the design
+        # a > b - thr holds with probability >= 0.9 per trial: thr = (b.high - a.low) - 10% of the spread
+        spread = (b["params"][1] - a["params"][0])
+        cons.append({"factors": [a["name"], b["name"]], "op": "gtpair", "thr": spread - 0.1 * min(a["params"][1] - a["params"][0], b["params"][1] - b["params"][0])})
     return specs, cons
